@@ -135,8 +135,9 @@ def check():
         cases.append(dict(id=f"l{len(cases)}", files=files, report="changed", steps=[dict(run=run)]))
         meta.append(("failsecond", via, "", ""))
     # (c) exit codes
-    for code in (0, 1, 3, 127, 255):
-        files = [dict(path="b/s.txt.txtpp", text=f"a\n-TXTPP#run echo out; exit {code}\nb\n")]
+    for code in (0, 1, 3, 127, 255, "kill -9 $$", "kill -TERM $$", "exec sh -c 'kill -SEGV $$'"):
+        tail = f"exit {code}" if isinstance(code, int) else code
+        files = [dict(path="b/s.txt.txtpp", text=f"a\n-TXTPP#run echo out; {tail}\nb\n")]
         for via in ("lib", "cli"):
             run = dict(base="b", inputs=["s.txt"], threads=1) if via == "lib" else dict(via="cli", base="b", args=["-q", "s.txt"])
             cases.append(dict(id=f"x{len(cases)}", files=files, report="changed", steps=[dict(run=run)]))
@@ -231,7 +232,7 @@ def check():
             _, code, via, _ = m
             want = "ok" if code == 0 else "err"
             if st["verdict"] != want:
-                rep.violation(f"run:exit:{code}:{via}", f"command exiting with status {code}: verdict {st['verdict']}, expected {want} [{via}]", dict(meta=m))
+                rep.violation(f"run:exit:{code}:{via}", f"command ending with `{code}` (exit status / signal): verdict {st['verdict']}, expected {want} [{via}]", dict(meta=m))
             if code == 0 and tree.get("b/s.txt", {}).get("text") != "a\nout\nb\n":
                 rep.violation(f"run:stdout:{via}", f"stdout of the command is not the directive output: {tree.get('b/s.txt')}", dict(meta=m))
         else:
@@ -282,7 +283,7 @@ def check():
     rep.coverage.update(dict(
         states=states, transitions=states, traces_validated_against_impl=validated,
         runs_with_probe_shell=sum(1 for m in meta if m[0] == "probe"), shell_invocations_recorded=n_probe,
-        default_shell_runs=sum(1 for m in meta if m[0] == "default"), exit_code_runs=10, refusal_runs=4,
+        default_shell_runs=sum(1 for m in meta if m[0] == "default"), exit_code_runs=16, refusal_runs=4,
         rule="9 source bodies (single/multi-line commands, tab/space joins, failing commands, tag capture, empty command) x depth 0..3 x "
              "{library with cwd unrelated / equal to base ('.') / below base ('..', '../..'), CLI in base} x shell argument lists; every recorded "
              "invocation validated by TLC (RunTrace.tla); default shell observed through pwd -P / $TXTPP_FILE / $0; exit codes 0,1,3,127,255; "
